@@ -13,7 +13,7 @@ ASSUMPTIONS = {
              "(GF(2)-linear expansion after checking linearity entry by entry, else uninterpreted function + 256 ground facts)"],
     "p1": ["bytes/bytearray/int/float in han.dlde -> SBytes/SByteArray/sym_int/sym_float", "han.dlde._LOGGER -> no-op logger",
            "han.dlde._ident_pattern -> SymPattern interpreting the repository's pattern string (backtracking matcher mirroring sre)",
-           "DataReadout._calculate_crc16 if-converted from its current source (branch arms that only assign locals become ite terms)"],
+           "every function of han.dlde whose branches only assign pure bit/arithmetic expressions to locals is if-converted from its current source (the CRC16 bit loop, wherever it lives)"],
     "obis": ["han.obis._obis_pattern -> SymPattern; int -> sym_int; f-strings of Obis.to_reduced_str/__str__/to_group_cdr_str rewritten from source to symbolic concatenation"],
     "decoders": ["construct.core io/struct/bytes2bits/bits2integer/BytesIOWithOffsets -> list-backed symbolic-aware equivalents",
                  "han.cosem.datetime -> datetime model with CPython's validation rules; float/round/int in aidon/kaifa/kamstrup -> delta-model float, decimal rounding model",
@@ -76,11 +76,11 @@ def _p1(p):
     INFO["dlde_patterns_wrapped"] = regex.wrap_module_patterns(p, D)
     p.setg(D, "str", sym_str); p.setg(D, "isinstance", models.sym_isinstance); p.setg(D, "round", sym_round)
     try:
-        restore, counts = loader.rewrite(D.DataReadout, "_calculate_crc16", if_conversion=True)
+        restore, done = loader.safe_if_convert_module(D)
         p.undo.append(restore)
-        INFO["crc16_if_converted"] = counts.get("if", 0)
-    except Exception as e:           # shape changed: fall back to plain forking
-        INFO["crc16_if_converted"] = f"failed: {e}"
+        INFO["dlde_if_converted"] = done          # every function of the module whose branches are pure bit/arith assignments (the CRC16 loop, wherever it lives)
+    except Exception as e:           # fall back to plain forking
+        INFO["dlde_if_converted"] = f"failed: {e}"
 
 
 def _obis(p):
